@@ -62,5 +62,5 @@ package rueidishook
 // Nodes: every client of the returned map is wrapped (visited(a): key a has been yielded by the range loop)
 //@ func hookclient.Nodes
 //@   modifies *
-//@   ensures [C43 every-node-is-wrapped] forall a string :: has(result, a) ==> typeis(result[a], *hookclient)
-//@   loop 0: invariant [C43] nodes != nil ==> (forall a string :: visited(a) ==> (has(nodes, a) && typeis(nodes[a], *hookclient)))
+//@   ensures [C43 every-node-is-wrapped] forall a string :: has(result, a) ==> (typeis(result[a], *hookclient) && ptrof(result[a], *hookclient).hook == c.hook)
+//@   loop 0: invariant [C43] nodes != nil ==> (forall a string :: visited(a) ==> (has(nodes, a) && typeis(nodes[a], *hookclient) && ptrof(nodes[a], *hookclient).hook == c.hook))
